@@ -8,30 +8,5 @@ Open Scope string_scope.
 
 Definition declared_are_defined_full : Prop := forall p, In p prototypes -> In p entry_names.
 
-Theorem all_entries_tight_refuted : ~ all_entries_tight_full.
-Proof.
-  intros H.
-  destruct (find (fun en => negb (tight en)) entries) as [en|] eqn:F; [|vm_compute in F; discriminate F].
-  apply find_some in F as [F1 F2]. specialize (H en F1). rewrite H in F2. discriminate.
-Qed.
-
-(* the witness: ppl_io_wrap_string has no try block and calls wrap_string (std::string: bad_alloc) *)
-Theorem wrap_string_escapes : exists en, In en entries /\ e_name en = "ppl_io_wrap_string" /\
-  e_has_try en = false /\ In "wrap_string" (e_calls en) /\
-  forall e, fst (run_entry en (Throws e)) = Escaped e.
-Proof.
-  destruct (find (fun en => String.eqb (e_name en) "ppl_io_wrap_string") entries) as [en|] eqn:F; [|vm_compute in F; discriminate F].
-  exists en. pose proof (find_some _ _ F) as [F1 F2]. apply String.eqb_eq in F2.
-  vm_compute in F. inversion F; subst en. repeat split; auto.
-  cbn. tauto.
-Qed.
-
-Theorem declared_are_defined_refuted : ~ declared_are_defined_full.
-Proof.
-  intros H. specialize (H "ppl_new_Linear_Expression_from_Grid_Generator").
-  assert (P : In "ppl_new_Linear_Expression_from_Grid_Generator" prototypes) by (apply str_mem_In; vm_compute; reflexivity).
-  specialize (H P). apply str_mem_In in H. vm_compute in H. discriminate H.
-Qed.
-
 Theorem no_dangling_outputs_refuted : ~ no_dangling_outputs_full.
 Proof. unfold no_dangling_outputs_full. intros H. apply (f_equal (@List.length string)) in H. vm_compute in H. discriminate H. Qed.
